@@ -19,8 +19,11 @@ SimStepJ ==
   \/ \E i \in Inst : Leave(i) /\ Cmd([a |-> "Leave", i |-> i])
   \/ \E e \in leaveEv : NotifyLeave(e) /\ Cmd([a |-> "NotifyLeave", i |-> e[1], j |-> e[2]])
 SimStep ==
-  \/ \E i \in Inst : Join(i) /\ Cmd([a |-> "Join", i |-> i, val |-> nsnaps])
+  \/ (\E i \in Inst : Join(i) /\ Cmd([a |-> "Join", i |-> i, val |-> nsnaps])) /\ UNCHANGED rd
   \/ J(SimStepJ)
+  \/ \E m \in msgs : \E keep \in BOOLEAN : DRead(m, keep)
+        /\ Cmd([a |-> "Read", i |-> m.from, j |-> m.to, sh |-> m.sh, type |-> m.type, ts |-> m.ts, keep |-> keep])
+  \/ \E r \in rd : DEvict(r) /\ Cmd([a |-> "Evict", i |-> r.from, j |-> r.to, sh |-> r.sh, type |-> "register", ts |-> r.ts])
 Pad == ~ENABLED Next /\ Cmd([a |-> "Pad"]) /\ UNCHANGED vars
 SimNext == /\ Len(hist) < Depth
            /\ (SimStep \/ Pad)
